@@ -182,7 +182,7 @@ def run(ctx):
     # a lock/generator/local function raises TypeError or AttributeError, or pickle.PicklingError)
     from ..raises import handler_names, is_subclass
 
-    tries = [n for n in ast.walk(rj) if isinstance(n, ast.Try) and any("record_value" in src(b) and "error_value" in src(b) for b in n.body)]
+    tries = [n for n in ast.walk(rj) if isinstance(n, ast.Try) and any("record_value" in src(b) and ("error_value" in src(b) or "ErrorValue(" in src(b)) for b in n.body)]
     ok = False
     covered = []
     if tries:
